@@ -816,4 +816,206 @@ def TSpace.indexSpace (t : TSpace) (newShape : List Nat) (fresh : Nat) : Option 
   | .array _ _ e => some ⟨newShape, t.dtype, .array .np fresh e⟩
   | _ => some ⟨newShape, t.dtype, t.w⟩
 
+/-! ## membership `x in S`, `S.contains_set(S')`, `S.contains_all(array)` for plain sets
+(odl/set/sets.py, odl/set/domain.py; round 4) -/
+
+/-- Python scalars offered to `in` (`real`: a finite Python / NumPy float; `str`: text that does
+not parse as a number; NumPy integer / floating / complex scalars are registered with the same
+`numbers` ABCs as the Python types and are described by the same constructors; `np.bool_` is
+NOT `Integral` and is outside the model). -/
+inductive Scalar
+  | pynone
+  | bool (b : Bool)
+  | int (i : Int)
+  | real (r : Rat)
+  /-- a complex number; `np`: a NumPy complex scalar (`np.complex64/128`), not a Python `complex` -/
+  | cplx (re im : Rat) (np : Bool)
+  | str (s : String)
+  deriving DecidableEq, Repr
+
+inductive Val
+  | sc (s : Scalar)
+  /-- a tuple or list -/
+  | tuple (vs : List Val)
+  deriving Repr
+
+/-- the value of a number (`isinstance(x, numbers.Complex)`) as a complex number -/
+def Scalar.num? : Scalar → Option (Rat × Rat)
+  | .bool b => some (if b then 1 else 0, 0)
+  | .int i => some ((i : Rat), 0)
+  | .real r => some (r, 0)
+  | .cplx a b _ => some (a, b)
+  | _ => none
+
+/-- the value of an `isinstance(x, numbers.Real)` object (`bool`, `int`, `float`; never a
+`complex`, whatever its imaginary part) -/
+def Scalar.real? : Scalar → Option Rat
+  | .bool b => some (if b then 1 else 0)
+  | .int i => some (i : Rat)
+  | .real r => some r
+  | _ => none
+
+/-- `isinstance(x, numbers.Integral)` -/
+def Scalar.isIntegral : Scalar → Bool
+  | .bool _ | .int _ => true
+  | _ => false
+
+/-- Python `a == b` on scalars: numbers by value across types (`True == 1 == 1.0 == 1+0j`),
+strings by content, `None` only with `None`. -/
+def Scalar.pyEq (a b : Scalar) : Bool :=
+  match a.num?, b.num? with
+  | some x, some y => decide (x = y)
+  | none, none => decide (a = b)
+  | _, _ => false
+
+/-- `(self.min_pt <= point).all() and (point <= self.max_pt).all()` for equal lengths -/
+def boxMem : List Rat → List Rat → List Rat → Bool
+  | l :: lo, h :: hi, x :: p => decide (l ≤ x) && decide (x ≤ h) && boxMem lo hi p
+  | _, _, _ => true
+
+/-- `np.array(x, dtype=float)` on one scalar as far as it matters for membership: a real number
+converts; a PYTHON `complex` raises `TypeError`; a NUMPY complex scalar is converted with a
+`ComplexWarning`, its imaginary part DISCARDED (finding C20-F13); `None` becomes NaN (every
+comparison is then `False`) and text raises `ValueError` — both end in `False`. -/
+def Scalar.floatConv? : Scalar → Option Rat
+  | .cplx re _ true => some re
+  | s => s.real?
+
+/-- entry of a sequence handed to `np.array(…, dtype=float)`; a nested sequence gives a 2-d or
+ragged array, which ends in `False`. -/
+def Val.coord? : Val → Option Rat
+  | .sc s => s.floatConv?
+  | .tuple _ => none
+
+/-- `IntervalProd.__contains__`: `point = np.array(other, dtype=float, ndmin=1)` (`False` on
+`ValueError` / `TypeError`), `point.shape == (ndim,)` and the bounds test. -/
+def intervalMem (lo hi : List Rat) : Val → Bool
+  | .sc s => match s.floatConv? with
+      | some x => decide (lo.length = 1) && boxMem lo hi [x]
+      | none => false
+  | .tuple vs => match vs.mapM Val.coord? with
+      | some p => decide (p.length = lo.length) && boxMem lo hi p
+      | none => false
+
+/-- Non-composite plain sets with `__contains__` (interval products with FINITE bounds). -/
+inductive PLeaf
+  | empty | universal | strings (n : Nat) | complex | real | integers
+  | interval (lo hi : List Rat)
+  | finite (elems : List Scalar)
+  deriving Repr
+
+/-- `x in S` for the non-composite sets, as coded. -/
+def PLeaf.mem : PLeaf → Val → Bool
+  | .empty, .sc .pynone => true                   -- `other is None`
+  | .empty, _ => false
+  | .universal, _ => true
+  | .strings n, .sc (.str s) => decide (s.length = n)
+  | .strings _, _ => false
+  | .complex, .sc s => s.num?.isSome            -- `isinstance(other, Complex)`
+  | .complex, _ => false
+  | .real, .sc s => s.real?.isSome              -- `isinstance(other, Real)`
+  | .real, _ => false
+  | .integers, .sc s => s.isIntegral            -- `isinstance(other, Integral)`
+  | .integers, _ => false
+  | .interval lo hi, v => intervalMem lo hi v
+  | .finite els, .sc s => els.any (fun e => e.pyEq s)   -- `other in self.elements`
+  | .finite _, .tuple _ => false
+
+/-- Plain sets, composites nested to any depth. -/
+inductive PSet
+  | leaf (l : PLeaf)
+  | cartesian (ms : List PSet)
+  | union (ms : List PSet)
+  | inter (ms : List PSet)
+  deriving Repr
+
+/-- `len(other)` / iteration as `CartesianProduct.__contains__` uses them: items of a
+sequence, the characters of a string; `None` and numbers have no `len` (→ `False`). -/
+def Val.items? : Val → Option (List Val)
+  | .tuple vs => some vs
+  | .sc (.str s) => some (s.toList.map fun c => .sc (.str (String.singleton c)))
+  | _ => none
+
+mutual
+/-- `x in S`: `SetUnion`: `any(other in set for set in self.sets)`; `SetIntersection`:
+`all(…)`; `CartesianProduct`: `len(other) == len(self) and all(p in set_ for set_, p in
+zip(self.sets, other))` (`False` if `other` has no `len`). -/
+def PSet.mem : PSet → Val → Bool
+  | .leaf l, v => l.mem v
+  | .cartesian ms, v => match v.items? with
+      | none => false
+      | some ps => decide (ps.length = ms.length) && PSet.memZip ms ps
+  | .union ms, v => PSet.memAny ms v
+  | .inter ms, v => PSet.memAll ms v
+def PSet.memZip : List PSet → List Val → Bool
+  | s :: l, p :: ps => s.mem p && PSet.memZip l ps
+  | _, _ => true
+def PSet.memAny : List PSet → Val → Bool
+  | [], _ => false
+  | s :: l, v => s.mem v || PSet.memAny l v
+def PSet.memAll : List PSet → Val → Bool
+  | [], _ => true
+  | s :: l, v => s.mem v && PSet.memAll l v
+end
+
+/-- `IntervalProd.dist(point, exponent=inf)` for a point of the right length: the largest
+violation of a bound, `0.0` if there is none. -/
+def distInf : List Rat → List Rat → List Rat → Rat
+  | l :: lo, h :: hi, x :: p =>
+      let v := if x > h then x - h else if x < l then l - x else 0
+      max v (distInf lo hi p)
+  | _, _, _ => 0
+
+/-- `IntervalProd.approx_contains(point, atol)` for a float array `point`: an EMPTY point is
+contained in everything (`point.size == 0 → True`), a point of the wrong length in nothing,
+otherwise `dist(point, inf) <= atol`. -/
+def approxContains (lo hi p : List Rat) (atol : Rat) : Bool :=
+  if p.isEmpty then true
+  else if p.length ≠ lo.length then false
+  else decide (distInf lo hi p ≤ atol)
+
+/-- `__eq__` of the classes that inherit `Set.contains_set` (`return self == other`):
+`Strings` (same length), `FiniteSet` (mutual containment of the element tuples); any other
+pairing is `False`. -/
+def PLeaf.eqB : PLeaf → PLeaf → Bool
+  | .strings n, .strings m => decide (m = n)
+  | .finite a, .finite b =>
+      a.all (fun x => b.any (fun e => e.pyEq x)) && b.all (fun x => a.any (fun e => e.pyEq x))
+  | _, _ => false
+
+/-- `A.contains_set(B[, atol])` for two DISTINCT objects as coded (`none` = raises
+`AttributeError`: an interval product asked about a set without `min` / `max`).  `atol` is
+only looked at by interval products. -/
+def PLeaf.containsSetDistinct (atol : Rat) : PLeaf → PLeaf → Option Bool
+  | .empty, .empty => some true
+  | .empty, _ => some false
+  | .universal, _ => some true
+  | .complex, .complex | .complex, .real | .complex, .integers => some true
+  | .complex, _ => some false
+  | .real, .real | .real, .integers => some true
+  | .real, _ => some false
+  | .integers, .integers => some true
+  | .integers, _ => some false
+  | .interval lo hi, .interval lo' hi' =>
+      some (approxContains lo hi lo' atol && approxContains lo hi hi' atol)
+  | .interval _ _, _ => none
+  | a, b => some (a.eqB b)
+
+/-- `A.contains_set(B[, atol])`; `same`: `B is A` — `IntervalProd.contains_set` (like the
+number sets) starts with `if self is other: return True`, which is observable for a negative
+`atol` (an equal but distinct interval product is then NOT contained). -/
+def PLeaf.containsSet (atol : Rat) (same : Bool) (A B : PLeaf) : Option Bool :=
+  match A, same with
+  | .interval _ _, true => some true
+  | _, _ => A.containsSetDistinct atol B
+
+/-- `F.contains_all(array)` for the three number sets: a test on the dtype of the array
+against the classifier tables of `odl.util.utility` (`is_numeric_dtype`, `is_real_dtype`,
+`is_int_dtype`; regenerated by the translator).  `none`: not a number set. -/
+def PLeaf.containsAllDtype (T : DTables) : PLeaf → DType → Option Bool
+  | .complex, d => some (T.isNumeric d)
+  | .real, d => some (T.isReal d)
+  | .integers, d => some (T.isInt d)
+  | _, _ => none
+
 end OdlModel.Spaces
